@@ -93,7 +93,7 @@ Definition is_resend_of (rtx : bool) (rtxssrc rtxpt : Z) (h : hdr) (pay : list Z
   if rtx then
     h_ssrc h' = rtxssrc /\ h_pt h' = rtxpt /\ h_pad h' = false /\
     h_padsize h' = (if h_pad h then 0 else h_padsize h) /\   (* meaningless without the flag: left alone *)
-    h_marker h' = h_marker h /\ h_ts h' = h_ts h /\ h_csrc h' = h_csrc h /\
+    h_marker h' = h_marker h /\ h_ts h' = h_ts h /\ h_csrc h' = h_csrc h /\ h_x h' = h_x h /\
     pay' = [(h_seq h / 256) mod 256; h_seq h mod 256] ++ unpadded h pay
   else h' = h /\ pay' = pay.
 
@@ -101,6 +101,6 @@ Definition is_resend_ofb (rtx : bool) (rtxssrc rtxpt : Z) (h : hdr) (pay : list 
   if rtx then
     (h_ssrc h' =? rtxssrc) && (h_pt h' =? rtxpt) && negb (h_pad h') &&
     (h_padsize h' =? (if h_pad h then 0 else h_padsize h)) &&
-    Bool.eqb (h_marker h') (h_marker h) && (h_ts h' =? h_ts h) && list_eqb Z.eqb (h_csrc h') (h_csrc h) &&
+    Bool.eqb (h_marker h') (h_marker h) && (h_ts h' =? h_ts h) && list_eqb Z.eqb (h_csrc h') (h_csrc h) && hext_eqb (h_x h') (h_x h) &&
     list_eqb Z.eqb pay' ([(h_seq h / 256) mod 256; h_seq h mod 256] ++ unpadded h pay)
   else hdr_eqb h' h && list_eqb Z.eqb pay' pay.
